@@ -231,6 +231,10 @@ pub fn check_case(l: &mut Local, case: &Case) {
         }
         Case::Error { what, kind, bound, id, pre_fix } => {
             let mut msg = instance(*kind, bound.map(|(a, b)| (a.0, b.0)));
+            if what == "unknown-id-no-variables" {
+                msg.decision_variables.clear();
+                msg.objective = None;
+            }
             if let Some((fid, fv)) = pre_fix {
                 if !apply_pre_fix(&mut msg, *fid, fv.0) {
                     return;
@@ -439,6 +443,7 @@ pub fn run(ctx: &Ctx) -> Finish {
         let nan = f64::NAN;
         let errs: Vec<(&str, i32, Option<(f64, f64)>, u64)> = vec![
             ("unknown-id", KIND_INTEGER, Some((0.0, 3.0)), 77),
+            ("unknown-id-no-variables", KIND_INTEGER, Some((0.0, 3.0)), ENC_ID),
             ("kind-binary", KIND_BINARY, Some((0.0, 1.0)), ENC_ID),
             ("kind-continuous", KIND_CONTINUOUS, Some((0.0, 3.0)), ENC_ID),
             ("kind-semi-integer", 4, Some((0.0, 3.0)), ENC_ID),
